@@ -491,3 +491,17 @@ Proof.
   intros Hr. destruct (msq_linearizable _ _ _ _ Hr) as (lin & L). exists lin. split; [exact L|].
   intros i Hd. eapply fifo_empty_was_empty; eauto.
 Qed.
+
+(** ** the two instantiations by name *)
+Theorem msqueue_linearizable ic hp fuel ths c :
+  Conc.reach (init_cfg (mkConf false ic hp) fuel ths) c ->
+  exists atr : list (aev Fifo), lp_valid Fifo atr /\ erase atr = hist (Conc.trace c).
+Proof. apply msq_lp_trace. Qed.
+
+Theorem moirqueue_linearizable ic hp fuel ths c :
+  Conc.reach (init_cfg (mkConf true ic hp) fuel ths) c ->
+  exists atr : list (aev Fifo), lp_valid Fifo atr /\ erase atr = hist (Conc.trace c).
+Proof. apply msq_lp_trace. Qed.
+
+Definition msq_chain_wellformed := msq_chain.
+Definition msq_no_loss_no_dup := msq_chain.
